@@ -9,7 +9,8 @@ Local Open Scope R_scope.
     products / quotients of exponentials are first merged) *)
 Ltac solve_exp :=
   first [ apply (f_equal exp); ring
-        | rewrite <- ?exp_plus, <- ?exp_Ropp; apply (f_equal exp); ring ].
+        | rewrite <- ?exp_plus, <- ?exp_Ropp; apply (f_equal exp); ring
+        | unfold Rdiv; repeat first [ rewrite <- exp_Ropp | rewrite <- exp_plus ]; apply (f_equal exp); ring ].
 
 Lemma tie_alpha_pop pa na pr nr t : gen_alpha_pop pa na pr nr t = alpha pa na pr nr t.
 Proof. unfold gen_alpha_pop, alpha, Dval. solve_exp. Qed.
